@@ -104,7 +104,7 @@ def run(ctx):
         ctx.obligation("T-effects:EffectsGen.v compiles", ok, se[-600:])
         if ok:
             ctx.copy_props()
-            common.tie_pycore(ctx, ["Tie_corr.v"])
+            common.tie_pycore(ctx, ["Tie_corr.v", "Tie_projected.v"])
     except t_effects.TranslateError as e:
         ctx.obligation("T-effects:translate correlators.py", False, str(e))
     ctx.extra["methods_with_argument_stores"] = {m: mu for m, _, mu in eff_rows if mu}
